@@ -651,13 +651,26 @@ func (r *Replica) Restore(ctx context.Context, opt RestoreOptions) (err error) {
 			}
 			_ = snapshotItr.Close()
 
-			if latestSnapshot != nil {
-				if latestSnapshot.MinTXID > txid {
-					return fmt.Errorf("cannot resume follow mode: saved TXID %s is behind the earliest snapshot (min TXID %s); replica history has been pruned -- delete %s and %s-txid to re-restore", txid, latestSnapshot.MinTXID, opt.OutputPath, opt.OutputPath)
+			if latestSnapshot != nil && latestSnapshot.MinTXID > txid {
+				return fmt.Errorf("cannot resume follow mode: saved TXID %s is behind the earliest snapshot (min TXID %s); replica history has been pruned -- delete %s and %s-txid to re-restore", txid, latestSnapshot.MinTXID, opt.OutputPath, opt.OutputPath)
+			}
+
+			// A follower is normally ahead of the newest snapshot: it applies
+			// incremental files written after it. The saved TXID is only
+			// unusable if the replica has never reached it at any level,
+			// i.e. the output belongs to a different or rewound replica.
+			var replicaMaxTXID ltx.TXID
+			for level := 0; level <= SnapshotLevel; level++ {
+				info, maxErr := r.MaxLTXFileInfo(ctx, level)
+				if maxErr != nil {
+					return fmt.Errorf("cannot validate saved TXID for crash recovery: level %d: %w", level, maxErr)
 				}
-				if txid > latestSnapshot.MaxTXID {
-					return fmt.Errorf("cannot resume follow mode: saved TXID %s is ahead of latest snapshot (max TXID %s); delete %s and %s-txid to re-restore", txid, latestSnapshot.MaxTXID, opt.OutputPath, opt.OutputPath)
+				if info.MaxTXID > replicaMaxTXID {
+					replicaMaxTXID = info.MaxTXID
 				}
+			}
+			if txid > replicaMaxTXID {
+				return fmt.Errorf("cannot resume follow mode: saved TXID %s is ahead of the replica (max TXID %s); delete %s and %s-txid to re-restore", txid, replicaMaxTXID, opt.OutputPath, opt.OutputPath)
 			}
 
 			r.Logger().Info("resuming follow mode from crash recovery", "txid", txid, "output", opt.OutputPath)
